@@ -60,7 +60,7 @@ ASSUMPTIONS = ["float64 arithmetic modelled as exact real arithmetic; np.sqrt(3)
                "elmat-exact-integral; 2-point Gauss is exact for these integrands, so a wrong Gauss point is a violation)",
                "replay witnesses are preferred (not required) to have sizes, E, rho, kappa, x >= 1/4 so that the float "
                "replay is well scaled"]
-ITEM_TIMEOUT = {"quick": 110, "thorough": 900}
+ITEM_TIMEOUT = {"quick": 240, "thorough": 900}
 
 
 # ------------------------------------------------------------------------------------------------
